@@ -304,6 +304,9 @@ impl Prop for PctProp {
 #[derive(Clone, Debug, Serialize, Deserialize)]
 pub struct SumCase {
     pub terms: Vec<Case>,
+    /// the X of every phrase is held in a name of its own, bound on an earlier line (`x1 = 50` ... / `x1 off 10% + x2 of 20%`)
+    #[serde(default)]
+    pub names: bool,
 }
 
 pub struct PhraseSums;
@@ -315,8 +318,32 @@ impl Prop for PhraseSums {
     }
     fn check(&self, w: &mut Worker, c: &SumCase) -> Verdict {
         let cfg = Cfg::default();
-        let line = c.terms.iter().map(|t| case_line(t).render(",", ".")).collect::<Vec<_>>().join(" + ");
-        let rendered = line.clone();
+        const NAMES: [&str; 12] = ["alpha", "beta", "gamma", "delta", "net fee", "gross fee", "rent", "bonus", "ürün", "stock", "margin", "share"];
+        let mut defs: Vec<String> = vec![];
+        let line = c
+            .terms
+            .iter()
+            .enumerate()
+            .map(|(i, t)| {
+                let l = case_line(t);
+                if !c.names {
+                    return l.render(",", ".");
+                }
+                // the X of the phrase is the one plain number token that is not the percentage
+                match l.toks.iter().position(|tk| tk.class == crate::lines::Class::Number) {
+                    Some(pos) => {
+                        let two = l.via_variable(pos, pos + 1, NAMES[i % NAMES.len()], ",", ".");
+                        let (d, u) = two.split_once('\n').unwrap();
+                        defs.push(d.to_string());
+                        u.to_string()
+                    }
+                    None => l.render(",", "."),
+                }
+            })
+            .collect::<Vec<_>>()
+            .join(" + ");
+        let line = if defs.is_empty() { line } else { format!("{}\n{}", defs.join("\n"), line) };
+        let rendered = line.replace('\n', " ; ");
         let mut exp = 0.0;
         let mut scale: f64 = 1.0;
         for t in &c.terms {
@@ -328,9 +355,9 @@ impl Prop for PhraseSums {
                 _ => return Verdict::skip("a term is not number-valued", rendered),
             }
         }
-        let slot = match w.eval1(&cfg, "en", &line) {
-            Ok(s) => s,
-            Err(e) => return Verdict::fail(e, rendered),
+        let slot = match w.eval(&cfg, "en", &line) {
+            Ok(o) => o.slots.last().cloned().unwrap_or(Slot::Nothing),
+            Err(p) => return Verdict::fail(format!("panic at {}: {}", p.site, p.message), rendered),
         };
         let mut acc = Acc::new();
         match &slot {
@@ -338,7 +365,7 @@ impl Prop for PhraseSums {
             other => acc.fail(format!("the {} phrases sum to {} but the line gives {}", c.terms.len(), exp, other.brief())),
         }
         let same_kind = c.terms.windows(2).all(|p| p[0].phrase == p[1].phrase);
-        acc.finish(rendered).nt(c.terms.len() >= 2).class("several-phrases-on-one-line").class_if(c.terms.len() >= 9, "nine-or-more-phrases").class_if(same_kind, "all-phrases-of-one-kind")
+        acc.finish(rendered).nt(c.terms.len() >= 2).class("several-phrases-on-one-line").class_if(c.terms.len() >= 9, "nine-or-more-phrases").class_if(same_kind, "all-phrases-of-one-kind").class_if(c.names, "operands-held-in-names")
     }
 }
 
@@ -357,7 +384,7 @@ pub fn sum_strategy() -> impl Strategy<Value = SumCase> {
         1 => prop::sample::select(kinds.clone()).prop_flat_map(|ph| prop::collection::vec(sum_term(Just(ph).boxed()), 2..13)),
         1 => prop::collection::vec(sum_term(prop::sample::select(kinds).boxed()), 2..13),
     ]
-    .prop_map(|terms| SumCase { terms })
+    .prop_map(|terms| SumCase { names: terms.len() % 3 == 2, terms })
 }
 
 pub fn value_strategy() -> impl Strategy<Value = NumLit> {
